@@ -307,14 +307,17 @@ def replay(o, tree):
         if S > 0 and S % 255 == 0 and S // 255 < 70000:
             return _wav_checksum_replay(S // 255, tree)
         return _wav_checksum_replay(257, tree)
-    if cfg.get("kind") == "rac":
-        return _wav_checksum_replay(257, tree)
     if cfg.get("kind") == "bin":
-        n = max(0, min(w.get("len", 65536), 70000))
-        code = "from pdpy11.formats import file_formats\ntry:\n    result = file_formats['bin'](%d, bytes(%d)).hex()[:8]\nexcept Exception as e:\n    result = 'EXC:' + type(e).__name__\n" % (w.get("base", 0) % 65536, n)
+        n = max(0, w.get("len", 3))
+        if n >= 65536:
+            n = 65536
+        elif n > 2000:
+            n = 2000
+        base = w.get("base", 0o1000) % 65536 or 0o1000
+        code = "from pdpy11.formats import file_formats\ntry:\n    result = file_formats['bin'](%d, bytes(range(7)) * 0 + bytes([i %% 251 for i in range(%d)])).hex()\nexcept Exception as e:\n    result = 'EXC:' + type(e).__name__\n" % (base, n)
         r = driver.native([{"kind": "py", "code": code}], tree)[0]
-        exp = "EXC" if n >= 65536 else (w.get("base", 0) % 65536).to_bytes(2, "little").hex() + n.to_bytes(2, "little").hex()
-        return dict(jobs=[{"kind": "py", "code": code}], expected=[exp], observed=[r.get("result")], reproduced=str(r.get("result")).startswith("EXC"))
+        exp = "a diagnostic, not an exception" if n >= 65536 else (base.to_bytes(2, "little") + n.to_bytes(2, "little") + bytes([i % 251 for i in range(n)])).hex()
+        return dict(jobs=[{"kind": "py", "code": code}], expected=[exp[:64]], observed=[str(r.get("result"))[:64]], reproduced=str(r.get("result")) != exp)
     return None
 
 
